@@ -213,8 +213,13 @@ void ModeMinkowski(Tape& t, Outcome& o) {
   d << "A=";
   bool aCentred = t.chance(96);
   Manifold A = SmallSolid(t, d, ca, aCentred);
+  // the convex-B path evaluates A's triangles in batches of 1000: now and then
+  // use an A above that size (a finer sphere, 1352 triangles) with a tiny B
+  bool bigA = t.chance(5);
+  if (bigA) { A = Manifold::Sphere(0.8, 52).Translate(vec3(0.3, -0.2, 0.1)); ca = true; aCentred = true; d << " [A:=Sphere(0.8,52) 1352 tris]"; }
   d << " B=";
   Manifold B = SmallSolid(t, d, cb, true);  // contains the origin
+  if (bigA) { B = Manifold::Tetrahedron().Scale(vec3(0.15)).Rotate(10, 20, 30); cb = true; d << " [B:=small tetrahedron]"; }
   bool diff = t.chance(96);
   // the statement is about MinkowskiSum(A, B) with the *argument* B containing
   // the origin; the operands are swapped only when A contains it as well
@@ -273,7 +278,8 @@ void ModeMinkowski(Tape& t, Outcome& o) {
     }
   }
   o.counters["points_used"] += used;
-  o.nontrivial = (!ca || !cb) && used > 0;
+  o.nontrivial = (!ca || !cb || bigA) && used > 0;
+  if (bigA) o.cls("A>1000-triangles");
   o.cls(std::string(diff ? "difference" : "sum") + (ca ? "-Aconvex" : "-Anonconvex") + (cb ? "-Bconvex" : "-Bnonconvex"));
 }
 
